@@ -619,3 +619,51 @@ func (w *World) WgWait(g *verifseam.WaitGroup) {
 		t.waitWG = nil
 	}
 }
+
+// As runs f inside the running task with the environment of ctx (node-local map
+// seed, zone, skew, config). A panic in f is returned, not propagated.
+func (w *World) As(ctx *Ctx, f func()) (pv interface{}, stack string) {
+	t := w.cur
+	var prev *Ctx
+	if t != nil {
+		prev = t.Ctx
+		t.Ctx = ctx
+	}
+	w.Seq++
+	w.installEnv(ctx)
+	defer func() {
+		if r := recover(); r != nil {
+			pv = r
+			stack = string(debug.Stack())
+		}
+		if t != nil {
+			t.Ctx = prev
+		}
+		w.Seq++
+		w.installEnv(prev)
+	}()
+	f()
+	return
+}
+
+func (w *World) installEnv(ctx *Ctx) {
+	if ctx == nil {
+		ctx = w.defaultCtx
+	}
+	runtime.SimMapSeed(ctx.MapSeed)
+	runtime.SimMapSalt(w.Seq)
+	if ctx.Zone != nil {
+		time.Local = ctx.Zone
+	}
+	if ctx.Install != nil {
+		ctx.Install()
+	}
+}
+
+// Advance moves the simulated clock forward without running anything (used by
+// drivers between rounds; pending timers that fall due become runnable).
+func (w *World) Advance(d time.Duration) {
+	if d > 0 {
+		w.now += d
+	}
+}
